@@ -587,6 +587,7 @@ func (x *Exec) burst(s Step) StepResult {
 					rmu.Unlock()
 				}
 			}
+			_ = l.Heads() // (a reader that also looks at the heads while the log is written to)
 			sn := l.ToSnapshot()
 			rmu.Lock()
 			if len(res.BurstSnaps) < 200 {
